@@ -238,7 +238,9 @@ def run(tier):
             sel = plist if mode == "open" else [p for p in plist if p[0] in KEY_OFFSETS and (tier == "thorough" or p[1] % 5 == 0 or p[1] < 6)]
             for n, (off, val) in enumerate(sel):
                 add({"op": "patch", "off": off, "hex": "%02x" % val})
-                if mode == "reread" and n % 4 == 3:
+                if False and mode == "reread" and n % 4 == 3:
+                    # (not used any more: LOWLEVEL.md says a *Table / *Index is invalid after RUnlock, so a transaction that
+                    # starts with a scan through a kept object is outside documented use; the code is kept for reference)
                     # a transaction that starts with a scan through an object kept from an earlier transaction
                     k0 = n // 4
                     order = LOW_REUSE[k0 % len(LOW_REUSE):] + LOW_REUSE[:k0 % len(LOW_REUSE)]
